@@ -205,6 +205,27 @@ pub fn build_ns(src: &[u8], dst: &[u8], target: &[u8], sll: &[u8; 6]) -> Vec<u8>
     put16(&mut s[2..4], c);
     s
 }
+/// BOOTP/DHCP server reply (op 2) with message type, server identifier, lease time, subnet mask,
+/// router and one DNS server
+pub fn build_dhcp_reply(msg_type: u8, xid: u32, chaddr: &[u8; 6], yiaddr: &[u8; 4], server: &[u8; 4]) -> Vec<u8> {
+    let mut d = vec![0u8; 240];
+    d[0] = 2;
+    d[1] = 1;
+    d[2] = 6;
+    put32(&mut d[4..8], xid);
+    d[16..20].copy_from_slice(yiaddr);
+    d[20..24].copy_from_slice(server);
+    d[28..34].copy_from_slice(chaddr);
+    d[236..240].copy_from_slice(&[0x63, 0x82, 0x53, 0x63]);
+    d.extend_from_slice(&[53, 1, msg_type]);
+    d.extend_from_slice(&[54, 4, server[0], server[1], server[2], server[3]]);
+    d.extend_from_slice(&[51, 4, 0, 0, 0x0e, 0x10]);
+    d.extend_from_slice(&[1, 4, 255, 255, 255, 0]);
+    d.extend_from_slice(&[3, 4, server[0], server[1], server[2], server[3]]);
+    d.extend_from_slice(&[6, 4, server[0], server[1], server[2], 9]);
+    d.push(255);
+    d
+}
 pub fn eth_wrap(dst: &[u8; 6], src: &[u8; 6], ethertype: u16, payload: &[u8]) -> Vec<u8> {
     let mut f = vec![0u8; 14 + payload.len()];
     f[0..6].copy_from_slice(dst);
